@@ -606,3 +606,86 @@ Proof.
   exfalso. assert (He : In e (snd (run env q (rt_steps r) None))) by (rewrite E; now left).
   pose proof (routes_sound r env q e Hr He) as A. rewrite Hg in A. exact A.
 Qed.
+
+(* ------------------------------------------------------------------ the login route as issuer of sessions *)
+
+(* whatever the request carries besides its login credential: the minted session names the user of that
+   credential, the credential is a verified password, the level is the password level and nothing more *)
+Theorem login_mints_password_only : forall now lim lq u l,
+  login_handler now lim lq = LMint u l -> login_spec lq u l.
+Proof.
+  intros now lim lq u l H. unfold login_handler, login_handler_gen in H. unfold login_spec.
+  destruct (q_meth (lq_req lq)); try discriminate;
+    (destruct (login_credential lq) as [b|] eqn:LC; [|discriminate];
+     destruct (negb lim); [discriminate|]; destruct (b_err b); [discriminate|];
+     destruct (b_ok b) eqn:OK; simpl in H; [|discriminate];
+     inversion H; subst; split; [reflexivity|]; exists b; auto).
+Qed.
+
+(* the attached credentials are ignored: two login requests with the same method, the same Authorization
+   header and the same form get the same answer - whatever auth_cookie (present or not, of whichever user and
+   level, valid or not), client certificate, Origin/Referer and clock each of them comes with *)
+Theorem login_ignores_attached : forall now now' lim lq lq',
+  q_meth (lq_req lq) = q_meth (lq_req lq') ->
+  k_basic (q_cred (lq_req lq)) = k_basic (q_cred (lq_req lq')) ->
+  lq_form lq = lq_form lq' ->
+  login_handler now lim lq = login_handler now' lim lq'.
+Proof.
+  intros now now' lim lq lq' Hm Hb Hf. unfold login_handler, login_handler_gen, login_credential.
+  rewrite Hm, Hb, Hf. reflexivity.
+Qed.
+
+(* consequence at the gates: the session minted by a login, presented on its own, is refused by every endpoint
+   whose mask has no password bit (every clock, method, origin, validity window of the cookie) *)
+Theorem login_session_needs_second_factor : forall now lim lq u l now' lim' deny required m o nbf exp iat,
+  login_handler now lim lq = LMint u l -> hasb bPassword required = false ->
+  exists code, check_auth now' lim' deny required
+                 {| q_meth := m; q_origin := o; q_tls := None; q_cred := cookie_only (session_token u l nbf exp iat) |} = Refuse code.
+Proof.
+  intros now lim lq u l now' lim' deny required m o nbf exp iat H Hreq.
+  destruct (login_mints_password_only _ _ _ _ _ H) as (Hl & _). subst l.
+  unfold check_auth, check_auth_gen, cookie_branch, cookie_only, session_token. simpl.
+  rewrite Hreq. simpl.
+  destruct m; destruct o; simpl; try (eexists; reflexivity);
+    destruct (token_ok now' _); simpl; try (eexists; reflexivity);
+    destruct (exp <? now')%Z; simpl; eexists; reflexivity.
+Qed.
+
+(* the login row of the route table is this issuer: signed material leaves the login route only when the
+   issuer mints (the form of the login route travels as k_basic in the route cases) *)
+Theorem login_row_is_issuer : forall env q e,
+  In e (snd (run env q [SMeth gp; SCheck; SPassword; SCheck; SEff ESigned] None)) ->
+  exists u, login_handler (e_now env) (e_limiter env) {| lq_req := q; lq_form := None |} = LMint u bPassword.
+Proof.
+  intros env q e H. unfold login_handler, login_handler_gen, login_credential. simpl in *.
+  destruct (q_meth q); simpl in *; try contradiction;
+    (destruct (e_check env); [|contradiction];
+     destruct (k_basic (q_cred q)) as [b|]; [|contradiction];
+     destruct (e_limiter env); simpl in *; [|contradiction];
+     destruct (b_err b); simpl in *; [contradiction|];
+     destruct (b_ok b); simpl in *; [|contradiction]; eexists; reflexivity).
+Qed.
+
+(* sharpness: a handler that keeps the factors of the session the request arrives with mints, for the user whose
+   password was typed, a level with the U2F bit although nothing in the request proves that user at any level
+   with that bit (the cookie is somebody else's) *)
+Definition eve_session : token := session_token 1 (N.lor bPassword bU2F) 0 1000 0.
+Definition eve_posts_bobs_password : loginq :=
+  {| lq_req := {| q_meth := POST; q_origin := SameOrigin; q_tls := None; q_cred := cookie_only eve_session |};
+     lq_form := Some {| b_user := 2; b_ok := true; b_err := false |} |}.
+
+Theorem login_carry_refuted :
+  exists now lim lq u l,
+    login_handler_gen true now lim lq = LMint u l /\ hasb l bU2F = true /\ ~ login_spec lq u l /\
+    (forall l', hasb l' bU2F = true -> ~ proves now [] (lq_req lq) u l') /\
+    login_handler now lim lq = LMint u bPassword.
+Proof.
+  exists 100%Z, true, eve_posts_bobs_password, 2, (N.lor bPassword bU2F).
+  split; [vm_compute; reflexivity|]. split; [vm_compute; reflexivity|]. split.
+  - intros (Hl & _). vm_compute in Hl. discriminate.
+  - split; [|vm_compute; reflexivity].
+    intros l' Hl' [(t & Ht & _ & Hu & _)|[(b & Hb & _)|(c & Hc & _)]].
+    + simpl in Ht. inversion Ht; subst t. vm_compute in Hu. discriminate.
+    + simpl in Hb. discriminate.
+    + simpl in Hc. discriminate.
+Qed.
